@@ -121,6 +121,7 @@ fn cfgs_for(prop: &str, n: usize) -> Vec<RunCfg> {
                             coop: false,
                             drop_sender: false,
                             pre_interrupted: 0,
+                            on_clone: false,
                         });
                     }
                 }
